@@ -3,7 +3,7 @@
 // repl.EvalStringWithOption with opts.MaxDepth and opts.MaxDuration set.
 //
 //	input  <family>;<n>;<maxdepth, 0 = default>;<deadline in ms, 0 = none>[;<need>]
-//	obs    exit=<ok|killed|fatal:<kind>>;res=<ok|err|deadline|depth|mem|go|parse|->;wall=<ms>;rss=<KiB>;retried=<0|1>
+//	obs    exit=<ok|killed|fatal:<kind>>;res=<ok|err|deadline|depth|mem|go|parse|->;wall=<ms>;rss=<KiB>;cpu=<ms>;retried=<0|1>
 //
 // res: ok = no error; deadline = an error mentioning the context deadline; depth = the recovered
 // "max depth" panic; mem = the recovered "would exceed memory" panic; go = any other recovered Go
@@ -26,6 +26,7 @@ import (
 	"strconv"
 	"strings"
 	"sync"
+	"syscall"
 	"time"
 
 	"fortio.org/log"
@@ -192,6 +193,17 @@ func peakRSSKB() int64 {
 	return -1
 }
 
+// processCPU: user + system time of this process so far.  On a busy machine the wall-clock time of a run says how
+// long it WAITED as well; the CPU time says how long it computed.  The driver takes the smaller of the two for
+// every family that computes (not for `sleep`, which waits by design).
+func processCPU() time.Duration {
+	var ru syscall.Rusage
+	if err := syscall.Getrusage(syscall.RUSAGE_SELF, &ru); err != nil {
+		return -1
+	}
+	return time.Duration(ru.Utime.Nano() + ru.Stime.Nano())
+}
+
 func classifyErrs(errs []string) string {
 	res := "ok"
 	for _, e := range errs {
@@ -227,14 +239,16 @@ func boundedChild(args []string) int {
 	opts := repl.EvalStringOptions()
 	opts.MaxDepth = d
 	opts.MaxDuration = time.Duration(t) * time.Millisecond
+	cpu0 := processCPU()
 	start := time.Now()
 	_, errs, formatted := repl.EvalStringWithOption(context.Background(), opts, prog)
 	wall := time.Since(start)
+	cpu := processCPU() - cpu0
 	res := classifyErrs(errs)
 	if res == "err" && formatted == prog && len(errs) > 0 && !strings.Contains(errs[0], "<err:") && strings.Contains(strings.Join(errs, " "), "parse") {
 		res = "parse"
 	}
-	fmt.Printf("res=%s;wall=%d;rss=%d\n", res, wall.Milliseconds(), peakRSSKB())
+	fmt.Printf("res=%s;wall=%d;rss=%d;cpu=%d\n", res, wall.Milliseconds(), peakRSSKB(), cpu.Milliseconds())
 	return 0
 }
 
@@ -288,12 +302,19 @@ func runBoundedChild(fam string, n int64, d, t int) (string, bool) {
 	}
 	retry := false
 	if t > 0 {
+		w, c := 0, -1
 		for _, f := range strings.Split(line, ";") {
 			if strings.HasPrefix(f, "wall=") {
-				w, _ := strconv.Atoi(f[5:])
-				retry = w-t > boundedRetryOverMs
+				w, _ = strconv.Atoi(f[5:])
+			}
+			if strings.HasPrefix(f, "cpu=") {
+				c, _ = strconv.Atoi(f[4:])
 			}
 		}
+		if c >= 0 && c < w && fam != "sleep" {
+			w = c
+		}
+		retry = w-t > boundedRetryOverMs
 	}
 	return "exit=ok;" + line, retry
 }
